@@ -89,7 +89,7 @@ func checkC10(c *vk.Ctx) {
 	p := qosProfile()
 	p.Name = "ids"
 	p.CollidePct = 35
-	p.W = map[string]int{"connect": 4, "subscribe": 4, "publish": 12, "disconnect": 2, "hold": 5, "ping": 1}
+	p.W = map[string]int{"connect": 4, "subscribe": 4, "publish": 12, "disconnect": 2, "hold": 5, "ping": 1, "pubrel": 3}
 	h := &histRun{Prop: "C10", Profile: p, N: c.N(300, 8000), Label: 10, Nontrivial: []string{"rx_PUBLISH"}, Rules: []string{"C10/", "C09/"}}
 	h.run(c)
 	c.MinEvents["rx_PUBLISH"] = 500
@@ -170,4 +170,20 @@ func checkC12(c *vk.Ctx) {
 	h := &histRun{Prop: "C12", Profile: p, N: c.N(300, 8000), Label: 12, Nontrivial: []string{"publish_delivered"}}
 	h.run(c)
 	c.MinEvents["publish_delivered"] = 1000
+	// backlog variant: subscribers that temporarily refuse the broker's writes (backpressure) so that several
+	// messages of different sizes queue up behind a small write buffer and are flushed in one go
+	pb := *p
+	pb.Name = "order-backlog"
+	pb.RecvMax = nil
+	pb.Size = []int{0, 0, 10, 60, 200, 600}
+	pb.PubQoS = []byte{0, 0, 1, 2}
+	pb.SubQoS = []byte{0} // a QoS>0 delivery to a stalled connection makes the publisher wait for the subscriber's client lock (held across the blocked write)
+	pb.W = map[string]int{"connect": 3, "subscribe": 3, "publish": 24, "disconnect": 1, "stall": 5, "ping": 1}
+	hb := &histRun{Prop: "C12", Profile: &pb, N: c.N(300, 8000), Label: 1202, Nontrivial: []string{"stall_toggles"},
+		Mutate: func(r *vk.Rand, cfg *hist.Config, ops []hist.Op) []hist.Op {
+			cfg.WriteBuf = vk.Pick(r, []int{16, 64, 256, 2048})
+			return ops
+		}}
+	hb.run(c)
+	c.MinEvents["stall_toggles"] = 500
 }
